@@ -49,7 +49,18 @@ func sec1String(r *gen.Rng, pool []namedPt) ([]byte, string) {
 		if r.Chance(1, 3) {
 			b = append([]byte{}, cmp...)
 		}
-		switch r.Intn(6) {
+		switch r.Intn(7) {
+		case 6:
+			// the valid encoding inside a DER wrapper other formats carry it in
+			// (OCTET STRING of PKCS #11 / X9.62 ECPoint, BIT STRING, SEQUENCE)
+			switch r.Intn(3) {
+			case 0:
+				return append([]byte{0x04, byte(len(b))}, b...), "valid-body-recut:der-wrapped"
+			case 1:
+				return append([]byte{0x03, byte(len(b) + 1), 0}, b...), "valid-body-recut:der-wrapped"
+			default:
+				return append([]byte{0x30, byte(len(b))}, b...), "valid-body-recut:der-wrapped"
+			}
 		case 0:
 			return b[1:], "valid-body-recut:prefix-dropped"
 		case 1:
